@@ -178,7 +178,7 @@ func c07Hook(ev string, args ...interface{}) {
 // request kinds
 const (
 	c07EnumQ     = `{ e j: f(en: RED) h: f(en: GREEN) }`
-	c07AbstractQ = `{ i { x ... on A { p } ... on B { q } } il { x __typename } u { __typename ... on B { q } } }`
+	c07AbstractQ = `{ i { x ... on A { p } ... on B { q } } il { x __typename } u { __typename ... on B { q } } ix { x } }`
 )
 
 func c07Outs(variant int) []abs.OutEntry {
